@@ -98,12 +98,13 @@ pub fn obs(inst: &mut Inst, uni: &Universe, cfg: &ObsCfg) -> String {
         q(inst, &mut out, "debug_getRawReceipts", json!([bs]));
         q(inst, &mut out, "debug_getBlockTraceString", json!([bs]));
         q(inst, &mut out, "debug_getBlockTraceHash", json!([bs]));
-        for i in 0..3u64 {
+        // (two-digit indexes too: blocks of 12 transactions exist in some alphabets)
+        for i in [0u64, 1, 2, 9, 10, 11, 12] {
             q(inst, &mut out, "eth_getTransactionByBlockNumberAndIndex", json!([b, i]));
         }
         q(inst, &mut out, "eth_getLogs", json!([{"fromBlock": bs, "toBlock": bs}]));
     }
-    for tag in ["latest", "pending", "earliest"] {
+    for tag in ["latest", "pending", "earliest", "safe", "finalized"] {
         q(inst, &mut out, "eth_getBlockByNumber", json!([tag, false]));
     }
     q(inst, &mut out, "eth_getLogs", json!([{}]));
@@ -113,6 +114,7 @@ pub fn obs(inst: &mut Inst, uni: &Universe, cfg: &ObsCfg) -> String {
     }
     for h in uni.h32.iter().chain(std::iter::once(&h32(0xfe))) {
         q(inst, &mut out, "eth_getBlockByHash", json!([h, true]));
+        q(inst, &mut out, "eth_getBlockByHash", json!([h, false]));
         q(inst, &mut out, "eth_getBlockTransactionCountByHash", json!([h]));
         q(inst, &mut out, "eth_getTransactionByBlockHashAndIndex", json!([h, 0]));
         q(inst, &mut out, "eth_getTransactionByBlockHashAndIndex", json!([h, 1]));
